@@ -134,6 +134,8 @@ impl DataLog {
                     .filter(|(filter, _)| matches(topic, filter))
                     .map(|(_, filter_idx)| *filter_idx)
                     .collect();
+                #[cfg(feature = "verif")]
+                let v = crate::verif::order(v);
 
                 if !v.is_empty() {
                     self.publish_filters.insert(topic.to_owned(), v.clone());
@@ -505,4 +507,51 @@ mod test {
     //             dbg!(v);
     //         }
     //     }
+}
+
+#[cfg(feature = "verif-snapshot")]
+impl DataLog {
+    /// filter -> index, sorted
+    pub fn verif_filters(&self) -> Vec<(Filter, FilterIdx)> {
+        let mut v: Vec<_> = self
+            .filter_indexes
+            .iter()
+            .map(|(f, i)| (f.clone(), *i))
+            .collect();
+        v.sort();
+        v
+    }
+
+    /// topic -> cached filter indexes, sorted by topic
+    pub fn verif_publish_filters(&self) -> Vec<(Topic, Vec<FilterIdx>)> {
+        let mut v: Vec<_> = self
+            .publish_filters
+            .iter()
+            .map(|(t, f)| (t.clone(), f.clone()))
+            .collect();
+        v.sort();
+        v
+    }
+
+    /// retained topic -> (payload, qos), sorted by topic
+    pub fn verif_retained(&self) -> Vec<(Topic, Vec<u8>, u8)> {
+        let mut v: Vec<_> = self
+            .retained_publishes
+            .iter()
+            .map(|(t, p)| (t.clone(), p.publish.payload.to_vec(), p.publish.qos as u8))
+            .collect();
+        v.sort();
+        v
+    }
+}
+
+#[cfg(feature = "verif-snapshot")]
+impl AckLog {
+    /// (pending acks rendered with `Debug`, number of recorded QoS2 publishes)
+    pub fn verif_state(&self) -> (Vec<String>, usize) {
+        (
+            self.committed.iter().map(|a| format!("{a:?}")).collect(),
+            self.recorded.len(),
+        )
+    }
 }
